@@ -43,7 +43,7 @@ def plan(tier, prop):
             items.append((sp, ents[:1] if tier == "quick" else ents, "memory", 2, {prop}, (True, ("inproc", "restart", "copy"))))
             from .family import ENTRY_PAIRS
             for a, b in ENTRY_PAIRS:
-                if a in sp["entries"] and b in sp["entries"] and (tier != "quick" or core or sp["id"].endswith("/direct") or sp["key"].startswith(("arg|", "nested_rt_keep"))):
+                if a in sp["entries"] and b in sp["entries"] and (tier != "quick" or core or sp["id"].endswith("/direct") or sp["key"].startswith(("arg|", "nested_rt_keep", "none_result"))):
                     items.append((sp, [a, b], "memory" if tier == "quick" else "local", 2, {prop}, (False, ("inproc", "restart"))))
         if prop == "C01" and sp["key"].startswith(("var|type=list|access=name", "var|type=dict|access=name", "var|type=nested|access=name", "var|type=odict|access=from")) \
                 and sp["id"].endswith(("/direct", "/helper2")):
